@@ -19,18 +19,40 @@ def inventory(ctx, mdib_file):
     return _INV[mdib_file]
 
 
-def run_histories(ctx, stream, ncases, nops, weights=None, consumer=True, mdib_files=('70041_MDIB_Final.xml',),
-                  iface_mix=0.35, batch=6, workers=12, extra=None):
+def make_cases(ctx, ncases, nops, weights=None, consumer=True, mdib_files=('70041_MDIB_Final.xml',), iface_mix=0.35,
+               scenarios=True):
+    """the first cases are the crafted scenario histories of mdibgen.SCENARIOS (each on every MDIB file, followed by
+    a short random tail), the rest are random histories"""
     cases = []
+    nscen = len(mdibgen.SCENARIOS) * len(mdib_files) * (1 if ncases < 400 else 3) if scenarios else 0
+    nscen = min(nscen, ncases // 2)
     for i in range(ncases):
         f = mdib_files[i % len(mdib_files)]
         rng = random.Random(ctx.rng.getrandbits(48))
         g = mdibgen.Gen(rng, inventory(ctx, f), weights, iface_mix)
-        c = {'mdib': f, 'seed': i + 1, 'consumer': consumer, 'ops': g.history(rng.randint(max(2, nops // 3), nops))}
+        if i < nscen:
+            j = i // len(mdib_files)
+            ops = mdibgen.scenario(g, j, rng.choice(['classic', 'entity', None, None]))
+            if not any(a[0] == 'delstate' for o in ops for a in o.get('actions', [])):
+                ops += g.history(rng.randint(0, 3))      # (nothing after a deletion the consumer cannot follow)
+            c = {'mdib': f, 'seed': i + 1, 'consumer': consumer, 'ops': ops, 'scenario': mdibgen.SCENARIOS[j % len(mdibgen.SCENARIOS)].__name__}
+        else:
+            c = {'mdib': f, 'seed': i + 1, 'consumer': consumer, 'ops': g.history(rng.randint(max(2, nops // 3), nops))}
+        cases.append(c)
+    return cases
+
+
+def run_histories(ctx, stream, ncases, nops, weights=None, consumer=True, mdib_files=('70041_MDIB_Final.xml',),
+                  iface_mix=0.35, batch=6, workers=12, extra=None, scenarios=True):
+    cases = make_cases(ctx, ncases, nops, weights, consumer, mdib_files, iface_mix, scenarios)
+    for c in cases:
+        rng = random.Random(ctx.rng.getrandbits(48))
         if extra:
             c.update(extra(rng, c) if callable(extra) else extra)
-        cases.append(c)
-    batches = [cases[i:i + batch] for i in range(0, len(cases), batch)]
+    # long (crafted) histories first, spread over the batches
+    order = sorted(range(len(cases)), key=lambda i: -len(cases[i]['ops']))
+    nb = max(1, (len(cases) + batch - 1) // batch)
+    batches = [[cases[i] for i in order[b::nb]] for b in range(nb)]
 
     def one(b):
         return ctx.impl('mdib_impl', {'cases': b}, timeout=900)
@@ -54,15 +76,56 @@ def run_histories(ctx, stream, ncases, nops, weights=None, consumer=True, mdib_f
 
 
 def op_histogram(pairs):
+    """measured on the executed histories: operation kinds, results, the generator's tags (only for operations that
+    committed, 'aborted-recreate' for those that did not), delete / re-create cycles and files"""
     hist = {}
+
+    def inc(key, n=1):
+        hist[key] = hist.get(key, 0) + n
     for c, r in pairs:
+        inc('file=' + c.get('mdib', ''))
+        if c.get('scenario'):
+            inc('crafted' + c['scenario'])
+        tb = mdibgen.Tables(r['init']['prov'])
+        gone = {t: {} for t in ('descrs', 'cstates')}       # handle -> number of times it left the table
+        back = {t: {} for t in ('descrs', 'cstates')}
         for op, st in zip(c['ops'], r['trace']):
             key = op['k'] + ('/' + op.get('tx', '') if op['k'] == 'state' else '') + \
                 ('/entity' if op.get('iface') == 'entity' else '')
-            hist[key] = hist.get(key, 0) + 1
+            inc(key)
             res = st['res'].split(':')[0]
-            hist['res=' + res] = hist.get('res=' + res, 0) + 1
-    return hist
+            inc('res=' + res)
+            for t in op.get('tag', []):
+                if (res == 'ok') != (t == 'aborted-recreate'):
+                    inc('tag:' + t)
+            keys = [it[0] for it in op.get('items', [])] + \
+                [('mk', a[2]) if a[0] == 'mk' else (a[0] in ('get', 'delstate') and 's', a[1]) for a in op.get('actions', [])
+                 if a[0] in ('mk', 'get', 'delstate', 'upd', 'add', 'del')]
+            if len(keys) != len(set(keys)):
+                inc(f'same-handle-twice:{op["k"]}/{op.get("iface", "classic")}={res}')
+            d = st['prov']
+            for t in gone:
+                for x in d[t]['set']:
+                    h = str(x[0])
+                    if h not in tb.t[t] and gone[t].get(h):
+                        back[t][h] = back[t].get(h, 0) + 1
+                for h in d[t]['del']:
+                    gone[t][h] = gone[t].get(h, 0) + 1
+            if res == 'ok' and op['k'] == 'descr':
+                for a in op['actions']:
+                    cur = tb.t['descrs'].get(str(a[1]))
+                    if a[0] == 'upd' and cur is not None and cur[2].endswith('ContextDescriptor'):
+                        k = sum(1 for x in d['cstates']['set'] if str(x[1]) == str(a[1]))
+                        inc(f'context-descriptor-updated-with-{min(k, 3)}{"+" if k >= 3 else ""}-states' +
+                            ('/entity' if op.get('iface') == 'entity' else ''))
+            roots = [x for x in d['descrs']['set'] if x[1] is None and str(x[0]) not in tb.t['descrs']]
+            if roots and len(d['descrs']['set']) == len(roots) and not d['descrs']['del']:
+                inc('tx-creates-only-root-descriptors')
+            tb.apply(d)
+        for t, name in (('descrs', 'descriptor'), ('cstates', 'context-state')):
+            for h, k in back[t].items():
+                inc(f'{name}-handles-recreated-{min(k, 3)}x')
+    return dict(sorted(hist.items()))
 
 
 # ----------------------------------------------------------------------------- generic property driver
